@@ -287,21 +287,28 @@ class ProgramOptionsSave(Contract):
             # precision(n) / setprecision(n) with a literal or numeric_limits<T>::max_digits10 (or digits10 + k is not accepted)
             for x in _walk(node):
                 if x.get('kind') == 'DeclRefExpr' and (x.get('referencedDecl') or {}).get('name') == 'max_digits10':
-                    q = x.get('type', {}).get('qualType', '')
-                    for y in [x] + list(_walk(node)):
-                        pass
-                    t = None
+                    # the JSON dump does not carry the qualifier: read numeric_limits<T> off the source text of the expression
                     import re as _re
-                    txt = json_text(node)
-                    m = _re.search(r'numeric_limits<([^>]*)>', txt)
+                    rg = x.get('range', {})
+                    b0, e0 = rg.get('begin', {}).get('offset'), rg.get('end', {}).get('offset')
+                    if b0 is None or e0 is None:
+                        return None
+                    src_txt = open(tu.path, 'rb').read()[b0:e0 + rg['end'].get('tokLen', 0)].decode('utf8', 'replace')
+                    m = _re.search(r'numeric_limits\s*<\s*([\w: ]+?)\s*>', src_txt)
                     t = m.group(1).strip() if m else None
+                    seen_ = set()
+                    while t is not None and t not in ('float', 'double', 'long double') and t not in seen_:
+                        seen_.add(t)
+                        short = t.split('::')[-1]
+                        tds = [d_ for d_ in _walk_docs(tu) if d_.get('kind') in ('TypedefDecl', 'TypeAliasDecl') and d_.get('name') == short]
+                        t = (tds[0].get('type', {}).get('desugaredQualType') or tds[0].get('type', {}).get('qualType')) if tds else None
                     return {'float': 9, 'double': 17, 'long double': 21}.get(t)
             lits = [int(x.get('value')) for x in _walk(node) if x.get('kind') == 'IntegerLiteral']
             return lits[0] if len(lits) == 1 else None
 
-        def json_text(node):
-            import json as _json
-            return _json.dumps(node)
+        def _walk_docs(tu_):
+            for d_ in tu_.docs:
+                yield from _walk(d_)
 
         def prec_sites(root):
             out = []
